@@ -21,6 +21,76 @@ def anonymise(fn, term):
     return term
 
 
+def _parse(term):
+    """tiny parser of call-shaped terms: returns (head, [args], tail) or None"""
+    m = re.match(r'^([!A-Za-z_][\w:<>, \'&]*?)\(', term)
+    if not m:
+        return None
+    head = m.group(1)
+    depth, cur, args, i = 0, '', [], len(head) + 1
+    while i < len(term):
+        ch = term[i]
+        if ch in '([{':
+            depth += 1
+        elif ch in ')]}':
+            if depth == 0:
+                args.append(cur)
+                return head, args, term[i + 1:]
+            depth -= 1
+        if ch == ',' and depth == 0:
+            args.append(cur); cur = ''
+        else:
+            cur += ch
+        i += 1
+    return None
+
+
+SYM = {'eq', 'ne', 'PartialEq::eq', 'PartialEq::ne'}
+MIRROR = {'gt': 'lt', 'ge': 'le', 'Gt': 'Lt', 'Ge': 'Le', 'PartialOrd::gt': 'PartialOrd::lt', 'PartialOrd::ge': 'PartialOrd::le'}
+
+
+def canon_term(term):
+    """operand order of symmetric comparisons and the direction of ordered ones are normalised recursively, so that `a == b` / `b == a`
+    and `a > b` / `b < a` give the same row"""
+    p = _parse(term)
+    if not p:
+        return term
+    head, args, tail = p
+    args = [canon_term(a) for a in args]
+    h = head.lstrip('!')
+    neg = head[:len(head) - len(h)]
+    if h in SYM and len(args) == 2:
+        args = sorted(args)
+    elif h in MIRROR and len(args) == 2:
+        h = MIRROR[h]; args = [args[1], args[0]]
+    return '%s%s(%s)%s' % (neg, h, ','.join(args), canon_term(tail) if tail.startswith('(') else tail)
+
+
+NEGATED = {'ne': 'eq', 'PartialEq::ne': 'PartialEq::eq', 'Result::is_err': 'Result::is_ok', 'Option::is_none': 'Option::is_some'}
+
+
+def canon_decision(term, edges):
+    """(term, edge) with negations folded into the edge: `!c -> true` == `c -> false`, `a != b -> true` == `a == b -> false`,
+    is_err/is_none likewise.  Only for two-valued switches (edges 0 / 1 / else(0) / else(1))."""
+    term = canon_term(term)
+    tv = {'0': 'F', 'else(1)': 'F', '1': 'T', 'else(0)': 'T'}
+    if edges not in tv:
+        return term, edges
+    val = tv[edges]
+    changed = True
+    while changed:
+        changed = False
+        if term.startswith('!'):
+            term = term[1:]; val = 'F' if val == 'T' else 'T'; changed = True
+            continue
+        p = _parse(term)
+        if p and p[0] in NEGATED and not p[2]:
+            term = '%s(%s)' % (NEGATED[p[0]], ','.join(p[1])); val = 'F' if val == 'T' else 'T'; changed = True
+        elif p and p[0] in ('not', 'Not::not') and len(p[1]) == 1 and not p[2]:
+            term = p[1][0]; val = 'F' if val == 'T' else 'T'; changed = True
+    return term, val
+
+
 def is_try_switch(fn, d):
     """switch on the ControlFlow discriminant of a `?` (Try::branch): error propagation, not a rule decision"""
     t = fn.B[d]['t']
@@ -59,8 +129,8 @@ def decisions_for_block(fn, T, L, k=2):
             if (t['o'] == cur or fn.dominates(t['o'], L)) and not edges:
                 edges.append('else(' + ','.join(str(v) for v, _ in t['ts']) + ')')
             if edges and not is_try_switch(fn, d):
-                term = anonymise(fn, T.op_term(fn, t['d']))
-                out.append('%s -> %s' % (term[:160], '|'.join(edges)))
+                term, edge = canon_decision(anonymise(fn, T.op_term(fn, t['d'])), '|'.join(edges))
+                out.append('%s -> %s' % (term[:200], edge))
         cur = d
     return tuple(out)
 
@@ -79,7 +149,7 @@ def bool_assignments(fn, T, k=2):
                 term = T.call_term(fn, d[1])
             else:
                 continue
-            rows[('bool-assign', (anonymise(fn, term)[:160],) + decisions_for_block(fn, T, d[1], k))] += 1
+            rows[('bool-assign', (canon_term(anonymise(fn, term))[:200],) + decisions_for_block(fn, T, d[1], k))] += 1
     return rows
 
 
